@@ -603,6 +603,7 @@ class ThreadPoolExecutor:
     self._workers = []
     self._shutdown = False
     self._idle = 0
+    self._idle_tokens = 0
     self.submitted = []
 
   def submit(self, fn, *a, **k):
@@ -611,7 +612,11 @@ class ThreadPoolExecutor:
     fut = Future()
     self._work.append((fut, fn, a, k))
     self.submitted.append(fut)
-    if self._idle == 0 and len(self._workers) < self._max_workers:
+    # CPython: every finished task releases an idle token, every submit consumes one or else starts a new worker
+    if self._idle_tokens > 0:
+      self._idle_tokens -= 1
+      S().yield_('ThreadPoolExecutor.submit')
+    elif len(self._workers) < self._max_workers:
       t = Thread(target=self._worker, name=self._thread_name_prefix)
       self._workers.append(t)
       t.start()
@@ -643,6 +648,7 @@ class ThreadPoolExecutor:
         raise
       except BaseException as e:  # pylint: disable=broad-exception-caught
         fut.set_exception(e)
+      self._idle_tokens += 1
       s.yield_('ThreadPoolExecutor.task_done')
 
   def shutdown(self, wait=True, cancel_futures=False):
